@@ -586,3 +586,46 @@ Proof.
   apply wf_code; [split; intro H; cbn in H; repeat destruct H as [H|H]; try discriminate; contradiction|].
   apply wf_lit; [right; reflexivity | cbv; solve_body | apply wf_nil | intros _ H; discriminate H].
 Qed.
+
+(* ------------------------------------------------------------------ the cleaned query contains no LF *)
+(* (this is what licenses modelling '$' as "end of text" and the dot of the WITH regex as "any character" for the text that
+   reaches separate_actions through the pipeline) *)
+Lemma lstrip_incl : forall f s c, In c (lstrip_by f s) -> In c s.
+Proof.
+  intros f s. induction s as [|x s IH]; intros c H; [exact H|]. cbn [lstrip_by] in H.
+  destruct (f x); [right; apply IH; exact H | exact H].
+Qed.
+Lemma rstrip_incl : forall f s c, In c (rstrip_by f s) -> In c s.
+Proof. intros f s c H. unfold rstrip_by in H. apply in_rev in H. apply lstrip_incl in H. apply in_rev. exact H. Qed.
+Lemma strip_incl : forall f s c, In c (strip_by f s) -> In c s.
+Proof. intros f s c H. unfold strip_by in H. apply rstrip_incl in H. apply lstrip_incl in H. exact H. Qed.
+
+Lemma split_ch_pieces : forall d s l, In l (split_ch d s) -> ~ In d l.
+Proof.
+  intros d s. induction s as [|c s IH]; intros l H.
+  - cbn [split_ch] in H. destruct H as [<-|[]]. intros [].
+  - cbn [split_ch] in H. destruct (N.eqb_spec c d) as [->|Hc].
+    + destruct H as [<-|H]; [intros [] | apply IH; exact H].
+    + destruct (split_ch d s) as [|l0 r] eqn:E.
+      * destruct H as [<-|[]]. intros [Z|[]]. contradiction.
+      * destruct H as [<-|H].
+        { intros [Z|Z]; [contradiction | exact (IH l0 (or_introl eq_refl) Z)]. }
+        { apply IH. right. exact H. }
+Qed.
+
+Lemma join_sp_nolf : forall ls, Forall nolf ls -> nolf (join [SP] ls).
+Proof.
+  induction ls as [|l ls IH]; intro H; [intros []|]. inversion H as [|? ? Hl Hls]; subst. destruct ls as [|l2 r]; [exact Hl|].
+  change (join [SP] (l :: l2 :: r)) with (l ++ [SP] ++ join [SP] (l2 :: r)). intro Z.
+  apply in_app_or in Z. destruct Z as [Z|Z]; [exact (Hl Z)|]. apply in_app_or in Z. destruct Z as [[Z|[]]|Z]; [discriminate Z | exact (IH Hls Z)].
+Qed.
+
+Theorem cleanup_no_lf : forall fl q, nolf (cleanup_query fl q).
+Proof.
+  intros fl q. unfold cleanup_query, rstrip_semi. intro Z. apply rstrip_incl in Z. revert Z. apply join_sp_nolf.
+  unfold clean_lines. apply Forall_forall. intros l Hl. apply filter_In in Hl. destruct Hl as [Hl _].
+  apply in_map_iff in Hl. destruct Hl as [x [<- Hx]]. unfold strip_comments.
+  destruct (starts_with (comment_prefix fl) (strip_ws fl x)); [intros []|].
+  intro Z. apply strip_incl in Z. exact (split_ch_pieces LF q x Hx Z).
+Qed.
+
